@@ -214,7 +214,7 @@ def c17(ctx):
     for kind, to in (("cc14", 0), ("pn", 0), ("poll", 0), ("poll", 5), ("poll", -1)):
         rows += gen.twin_reset(ctx.rng, kind, ctx.q(150, 1500), to=to)
     run_script(ctx, rows, "twin-reset-copy")
-    rows = gen.reset_after_selection(ctx.rng, "cc14", 0, ctx.q(4, 1)) + gen.reset_after_selection(ctx.rng, "pn", 0, ctx.q(8, 1)) \
+    rows = gen.reset_after_selection(ctx.rng, "cc14", 0, 1) + gen.reset_after_selection(ctx.rng, "pn", 0, ctx.q(8, 1)) \
         + gen.reset_after_selection(ctx.rng, "poll", ctx.rng.choice([0, 5]), ctx.q(8, 1))
     run_script(ctx, rows, "reset-after-concrete-values")
     rows = []
